@@ -572,6 +572,8 @@ func numberSweepFamily(dom Domain) Family {
 		{0, 10, 20, 30, 40, 50, 60, 70, 80, 90, 100, 110, 120, 130, 140, 150, 160, 170, 180, 190, 200, 210, 220, 230}, // 12 stems: fills the 24-entry charstring stack
 		{107, 108, 1131, 1132, -107, -108, -1131, -1132},                                                              // boundaries of the number encodings
 		{1, 2, 1, 2, 1, 2},
+		{60, 140, 360, 440, 660, 740}, // three stems of equal width, evenly spaced (the shape hstem3 / vstem3 exist for)
+		{0, 20, 100, 120, 200, 220},
 	}
 	type field struct {
 		name string
